@@ -57,8 +57,9 @@ def loop_fallible(extra_total=()):
     extra_total = set(extra_total)
 
     def pred(node, st: PState, an: PathAnalysis):
+        hv = tuple(h.name for h in an.handler_stack if h.name)
         for c in calls_in_order(node):
-            if is_benign_call(c):
+            if is_benign_call(c, hv):
                 continue
             nm = call_name(c)
             if isinstance(c.func, ast.Attribute) and c.func.attr in TOTAL_STR_METHODS and len(c.args) <= 1:
